@@ -342,6 +342,13 @@ def run_schedule(spec, schedule, names=None):
         elif op[0] == 'newsolver':
             m.new_solver()
             locked_carry = False
+        elif op[0] == 'solver':
+            # ('solver', i): solver number i takes over (created on first use); solvers keep their own state
+            pool = info.setdefault('_solvers', {0: m.solver})
+            if op[1] not in pool:
+                m.new_solver()
+                pool[op[1]] = m.solver
+            m.solver = pool[op[1]]
         elif op[0] == 'redeclare':
             # ('redeclare', i, link): the relation between elements i and i+1 is declared again (same Solver, same Powertrain)
             _, i, link = op
